@@ -56,7 +56,7 @@ def run(ctx):
     import time
     s = workloads.fresh_session(ctx, srv, 'ttlviews')
     views = [[b'DBSIZE'], [b'KEYS', b'*'], [b'EXISTS', b'k', b'other'], [b'TYPE', b'k'], [b'RANDOMKEY'], [b'SCAN', b'0', b'COUNT', b'100'],
-             [b'GET', b'k'], [b'PTTL', b'k'], [b'DBSIZE']]
+             [b'KEYS', b'k'], [b'KEYS', b'other'], [b'SCAN', b'0', b'MATCH', b'k', b'COUNT', b'100'], [b'GET', b'k'], [b'PTTL', b'k'], [b'DBSIZE']]
     mk = [[b'SET', b'k', b'v', b'PX', b'60']]
     stories = [mk + [[b'SET', b'k', b'v2']], mk + [[b'GETSET', b'k', b'v2']], mk + [[b'MSET', b'k', b'v2', b'other', b'x']], mk + [[b'PERSIST', b'k']],
                mk + [[b'PEXPIRE', b'k', b'600000']], mk + [[b'RENAME', b'k', b'other']], mk + [[b'RENAME', b'k', b'other'], [b'SET', b'k', b'fresh']],
@@ -75,6 +75,25 @@ def run(ctx):
             time.sleep(0.075)
             for a in views:
                 s.cmd(c, a)
+        # the same stories side by side on names of their own, then two full passes of the sweeper: whatever an index or a cache
+        # still holds about a discarded deadline must not cost a key that has none (or a later one) any more
+        s.cmd(c, [b'FLUSHALL'])
+        names = []
+        for i, st in enumerate(stories):
+            ren = lambda x: x + b'%d' % i if x in (b'k', b'other', b'n') else x
+            for a in st:
+                s.cmd(c, [a[0]] + [ren(x) for x in a[1:]])
+            names += [b'k%d' % i, b'other%d' % i]
+        start = int(srv.ctl.cmd('SWEEPS'))
+        t_end = time.time() + 5
+        while int(srv.ctl.cmd('SWEEPS')) < start + 2 and time.time() < t_end:
+            time.sleep(0.05)
+        s.cmd(c, [b'DBSIZE'])
+        s.cmd(c, [b'KEYS', b'*'])
+        for k in names:
+            s.cmd(c, [b'GET', k])
+            s.cmd(c, [b'PTTL', k])
+        s.cmd(c, [b'DBSIZE'])
     except ServerDied:
         pass
     s.close_all()
